@@ -161,6 +161,35 @@ def main():
                           {"commands": final["cmds"], "schedule": final["sched"], "events": final["events"], "stdout": final["out"][-12:]},
                           replay={"kind": "uci-forced", "commands": final["cmds"], "schedule": final["sched"]})
     chk.sample({"commands": results[0]["cmds"], "schedule": results[0]["sched"]})
+    # "each go is answered ... when its limit is reached": every finite form of go, the degenerate limits included (zero
+    # move time, empty clocks, only the opponent's clock), must be answered by itself - no stop is ever sent here
+    plain = vlib.build_engine("dev", hooks=False)
+    finite = ["go depth 1", "go movetime 0", "go movetime 1", "go wtime 0 btime 0", "go wtime 1 btime 1", "go btime 500",
+              "go wtime 500", "go wtime 0 btime 0 winc 0 binc 0", "go wtime 300 btime 300 movestogo 1", "go depth 3 movetime 5"]
+
+    def answered(i):
+        pos = uci.SCRIPT_POSITIONS[i % len(uci.SCRIPT_POSITIONS)]
+        s_ = uci.Session(plain)
+        bad = []
+        try:
+            for k in range(3):
+                g = finite[(i + 3 * k) % len(finite)]
+                nb = s_.counts["bestmove"]
+                s_.send(pos)
+                s_.send(g)
+                if not s_.wait_count("bestmove", nb + 1, 20):
+                    bad.append("%s | %s" % (pos, g))
+                    break
+        finally:
+            s_.send("quit")
+            s_.finish(10)
+        return bad
+    nprobe = len(finite) * (1 if q else 3)
+    for bad in vlib.pmap(answered, list(range(nprobe)), n=6):
+        for b in bad:
+            chk.violation("finite-go-not-answered|" + b, "a finite go was not answered by bestmove within 20 s although no stop was sent",
+                          {"session": b}, replay={"kind": "uci-script", "commands": b.split(" | ")})
+    chk.cov["finite_go_probes"] = nprobe * 3
     # direction A: free-running sessions, events validated against the model
     nsess = 16 if q else 200
     sess = vlib.pmap(interactive, [(binary, chk.seed * 1000 + i, chk.outdir, 30 if q else 60) for i in range(nsess)], n=8)
